@@ -274,12 +274,6 @@ func (c *simClient) GetReplicaAckIndex(ctx context.Context, in *protoReplicaV1.G
 	var err error
 	if e := c.cl.callOn(c.target, func() {
 		resp, err = c.cl.nodes[c.target].handler.GetReplicaAckIndex(ctx, in)
-		if os.Getenv("VERIF_TRACE") != "" {
-			n := c.cl.nodes[c.target]
-			pp, _ := n.walMgr.GetOrCreateLog(dbName).GetOrCreatePartition(0, familyTime, leaderID)
-			q := replica.VerifPartitionLog(pp).Queue()
-			c.cl.sim.Event("follower inc%d partition %p queue appended=%d ack=%d req=%+v", n.inc, pp, q.AppendedSeq(), q.AcknowledgedSeq(), in)
-		}
 	}); e != nil {
 		return nil, e
 	}
@@ -618,14 +612,7 @@ func (H) Run(c *core.RunCtx) {
 	// hw: the highest position the follower has ever appended in the current history of the
 	// leader's log (a later loss of the follower's log does not make earlier acknowledgements wrong).
 	hw := int64(-1)
-	lastF := int64(-99)
 	sim.OnStep = func() {
-		if os.Getenv("VERIF_TRACE") != "" {
-			if fApp, fAck, ok2 := readPos(fMeta); ok2 && fApp != lastF {
-				sim.Event("follower meta: appended %d ack %d (after task %s)", fApp, fAck, sim.LastTask())
-				lastF = fApp
-			}
-		}
 		if fApp, _, ok2 := readPos(fMeta); ok2 && fApp > hw {
 			hw = fApp
 		}
